@@ -61,8 +61,19 @@ func runPlan(t *testing.T, p *Plan, c *checker) {
 			}
 		}
 	}()
+	if p.BurnIDs > 0 {
+		var wg sync.WaitGroup
+		for i := 0; i < p.BurnIDs; i += 100 {
+			for j := 0; j < 100; j++ {
+				wg.Add(1)
+				go wg.Done()
+			}
+			wg.Wait()
+		}
+	}
 	synctest.Test(t, func(t *testing.T) {
 		var reg []*entry
+		skipWait := false
 		var reqs []*pendingReq
 		finishReq := func(pr *pendingReq) {
 			if pr.resumed {
@@ -104,6 +115,23 @@ func runPlan(t *testing.T, p *Plan, c *checker) {
 				}
 				<-e.started
 				c.probes["spawn:"+e.kind]++
+			case "spawnfresh":
+				// one P: the new goroutine stays in the run queue until this one
+				// blocks, so the next step sees it before it has run
+				e := &entry{idx: len(reg), kind: "recv", creator: st.Creator % 3, alive: true, fresh: true,
+					ch: make(chan int), ch2: make(chan int), started: make(chan struct{})}
+				e.cond = sync.NewCond(&e.mu)
+				reg = append(reg, e)
+				switch e.creator {
+				case 0:
+					spawnA(e)
+				case 1:
+					spawnB(e)
+				default:
+					spawnC(e)
+				}
+				skipWait = true
+				c.probes["spawn:fresh"]++
 			case "release":
 				if len(reg) > 0 {
 					e := reg[st.Target%len(reg)]
@@ -122,14 +150,18 @@ func runPlan(t *testing.T, p *Plan, c *checker) {
 					}
 				}
 			case "snapshot":
-				synctest.Wait()
+				if !skipWait {
+					synctest.Wait()
+				}
 				opts := &stack.Opts{NameArguments: true}
 				if st.Full {
 					opts = stack.DefaultOpts()
 				}
 				c.checkLibrary(fullStack(), reg, opts)
 			case "request":
-				synctest.Wait()
+				if !skipWait {
+					synctest.Wait()
+				}
 				dump := fullStack()
 				pre := len(headers(dump))
 				// the handler's own dump is a little larger (its frames); leave a margin
@@ -167,7 +199,20 @@ func runPlan(t *testing.T, p *Plan, c *checker) {
 					finishReq(reqs[st.Target%len(reqs)])
 				}
 			}
+			if st.Op == "spawnfresh" {
+				continue // no Wait: the next step must see the goroutine before it runs
+			}
+			skipWait = false
 			synctest.Wait()
+			for _, e := range reg {
+				if e.fresh {
+					select {
+					case <-e.started:
+						e.fresh = false // it has run and is parked in block() now
+					default:
+					}
+				}
+			}
 		}
 		// wind down: resume requests, release what can be released, let the
 		// sleepers expire
